@@ -371,6 +371,31 @@ def run_tpd(c):
             ck.add(f)
         else:
             ck.check(C.peq_all(dd.array, Q.array, 2, 1e-7) and dd.is_dual is False, f"dual:{name}:involution")
+        if name == "QuadricCollection":
+            # elements, slices and iteration of the dual collection are dual quadrics: dual[i] is the dual of element i
+            parts = [("dual[i]", lambda i: du[i]), ("list(dual)[i]", lambda i: list(du)[i]), ("dual[i:][0]", lambda i: du[i:][0])]
+            for i in range(Q.array.shape[0]):
+                for tag, get in parts:
+                    e, f = call(f"dual:{name}:{tag}", get, i)
+                    if f:
+                        ck.add(f)
+                        continue
+                    ok = getattr(e, "is_dual", None) is True and C.peq_all(e.array, np.linalg.inv(Q.array[i]), 2, 1e-7)
+                    if not ck.check(ok, f"dual:{name}:{tag}:is-the-dual-of-element-i", (i, getattr(e, "is_dual", None))):
+                        continue
+                    ee, f = call(f"dual:{name}:{tag}.dual", lambda: e.dual)
+                    if f:
+                        ck.add(f)
+                    else:
+                        ck.check(ee.is_dual is False and C.peq_all(ee.array, Q.array[i], 2, 1e-7), f"dual:{name}:{tag}:involution", i)
+                    # the dual of element i contains exactly the tangent hyperplanes: the polar of a point of the quadric
+                    x = np.array([np.sqrt(3.0), 0.0, 1.0]) if i == 0 else np.array([1.0, 0.0, 1.0])
+                    h = Q.array[i] @ x
+                    tg, f = call(f"dual:{name}:{tag}.contains", e.contains, Line(h))
+                    if f:
+                        ck.add(f)
+                    else:
+                        ck.check(bool(tg), f"dual:{name}:{tag}:contains-tangent-line", i)
         return ck.result()
     if what == "tangency_after_move":
         # a tangency query, then the quadric is moved, then the query is asked for the moved quadric (multi-step history)
